@@ -21,7 +21,7 @@ P = {
     'rule': 'a case is a random setup (balances, delegations, allocated rewards, withdraw addresses, staking and ICS-20 transfer grants of the signer) '
             'plus one Ethereum transaction: either EOA -> staking/distribution/ICS-20 precompile or EOA -> script contract running a '
             'random call tree (depth <= 3) of SSTORE / LOG / BALANCE / CALL with value / precompile calls (delegate, undelegate, withdraw, setWithdrawAddress, '
-            'claimRewards, ICS-20 transfer) / SELFDESTRUCT (a fifth of the cases self-destruct-heavy: few contracts called repeatedly) / CREATE with a scripted constructor (value, reverting, code-less, self-destructing constructors; CREATE addresses funded beforehand; a seventh of the cases creation-heavy) / storage writes that restore the pre-transaction value inside a failing nested frame of the same contract (re-entered directly or through another contract; 5% of the bodies) / zero-value calls to module accounts / REVERT with catching and '
+            'claimRewards, ICS-20 transfer) / SELFDESTRUCT (a fifth of the cases self-destruct-heavy: few contracts called repeatedly) / CREATE with a scripted constructor (value, reverting, code-less, self-destructing constructors; CREATE addresses funded beforehand; a seventh of the cases creation-heavy) / reward withdraw addresses without an account (6% of the setups), with the pattern [look at the address; precompile call that pays rewards to it; send value to it] / storage writes that restore the pre-transaction value inside a failing nested frame of the same contract (re-entered directly or through another contract; 5% of the bodies) / zero-value calls to module accounts / REVERT with catching and '
             'propagating callers, executed by the real EvmKeeper.ApplyTransaction, in 40% of the cases not as the first transaction of its block (block log counter 1..7, transaction index 1..3 set before); observed besides the state: the logs of the transaction response (emitters in order, compared with the run without the failed frames; count compared with the model; log index = block log counter + position, transaction index, block log counter afterwards); non-trivial = the transaction succeeded; '
             'distinct = distinct (setup, program)',
     'trusted_base': _COMMON_TB,
